@@ -12,9 +12,10 @@ let c11_type_of = function
   | "-" -> EtNone | "fail" -> EtFail | "FAIL" -> EtFAIL | "EXIT" -> EtEXIT | _ -> EtOther
 
 let () =
-  register "errtell" (function [side; trz; ty; tr; sad; flag; made] ->
+  register "errtell" (function [side; trz; ty; tr; sad; flag; made; tunnel] ->
       let e = { et_trz = c11_bool_of trz; et_typ = c11_type_of ty; et_trace = c11_bool_of tr; et_sad = c11_bool_of sad } in
-      let env = { et_flag = c11_bool_of flag; et_deleted = c11_bool_of made } in
+      (* the window: a tunnel connection accepted (1), not yet connected (2 = connected) *)
+      let env = { et_flag = c11_bool_of flag; et_deleted = c11_bool_of made; et_window = (tunnel = "1") } in
       let body = if side = "server" then errtell_serverError else errtell_clientError in
       let (acts, ok) = et_run errtell_preds body e env in
       (* a send before cleanInput is "early", after serverExit "late" *)
@@ -23,10 +24,11 @@ let () =
         | AClean :: r -> walk true exited r
         | AExit _ :: r -> walk cleaned true r
         | ADelete :: r -> walk cleaned exited r
-        | ASend (w, names) :: r ->
+        | ASend (w, names, tun) :: r ->
           let t = c11_word w ^ (if names then ":names" else "") in
           let t = if cleaned then t else "early:" ^ t in
           let t = if exited then "late:" ^ t else t in
+          let t = if tun then "tunnel:" ^ t else t in
           t :: walk cleaned exited r in
       let lines = walk false false acts in
       let has p = List.exists p acts in
